@@ -16,12 +16,13 @@ rsync -a --exclude target --exclude build.log "$SRC_VERIF/harness" "$WORK/verif/
 cp -r "$SRC_VERIF/corpus" "$SRC_VERIF/known_findings.json" "$WORK/verif/" 2>/dev/null
 sed -i "s|path = \"/repo\"|path = \"$WORK/repo\"|" "$WORK/verif/harness/Cargo.toml"
 export RUST_BACKTRACE=0 CARGO_NET_OFFLINE=true VERIF_ROOT="$WORK/verif"
-(cd "$WORK/verif/harness" && cargo build --release --offline -q 2>/dev/null) || { echo "base build failed"; exit 2; }
+FEAT="--no-default-features"; case " $IDS " in *" C20 "*) FEAT="" ;; esac
+(cd "$WORK/verif/harness" && cargo build --release --offline -q $FEAT 2>/dev/null) || { echo "base build failed"; exit 2; }
 printf "%-42s" mutant; for id in $IDS; do printf " %4s" "$id"; done; echo
 for m in "$SRC_VERIF"/mutants/$GLOB.diff; do
   name=$(basename "$m" .diff)
   if ! git -C "$WORK/repo" apply "$m" 2>/dev/null; then printf "%-42s patch-does-not-apply\n" "$name"; continue; fi
-  if ! (cd "$WORK/verif/harness" && cargo build --release --offline -q 2>"$WORK/build.log"); then
+  if ! (cd "$WORK/verif/harness" && cargo build --release --offline -q $FEAT 2>"$WORK/build.log"); then
     printf "%-42s does-not-build\n" "$name"; git -C "$WORK/repo" checkout -q -- .; continue
   fi
   printf "%-42s" "$name"
